@@ -67,7 +67,7 @@ func (t *T0x1210) Parse(jtMsg *jt808.JTMessage) error {
 	t.InfoType = body[cursor]
 	t.AttachCount = body[cursor+1]
 	cursor += 2
-	if len(body) < cursor+int(t.AttachCount)*(1+1+4) {
+	if len(body) < cursor+int(t.AttachCount)*(1+4) { // 文件名称可以为空
 		return protocol.ErrBodyLengthInconsistency
 	}
 	start := cursor
